@@ -54,6 +54,16 @@ structure Env where
   /-- `CallStack.maxdepth` -/
   maxdepth  : Nat
 
+/-- `Impl.get_property("allow_none")` (modelx/core/base.py): the nearest setting that is not
+`None`, looked up cells → space → model; the model always has one (`ModelImpl.__init__` sets
+`False`, the setter of the interface stores `None` or a `bool`). -/
+def resolveAllowNone (cell space : Option Bool) (model : Bool) : Bool :=
+  match cell with
+  | some b => b
+  | none => match space with
+    | some b => b
+    | none => model
+
 /-! ## Specification: uncached evaluation of the formulas as pure functions
 
 The Boolean is a sticky "the depth bound was hit somewhere, even if a formula caught it"
